@@ -166,6 +166,15 @@ CHECKS = {
          'or failing to read the last sentinel clause again are refuting events.',
     note='Mutations that open a quote/comment may swallow following text: only termination, prefix and no-crash are asserted for '
          'them. K35/K35b (reader makes no progress after certain lexer errors) are KNOWN-FINDINGs.'),
+ 'C50': dict(
+    level='exploration',
+    technique='runtime monitoring: differential oracle between the in-memory and the stream paths (same text / same term / same options)',
+    text='Terms from the printed-term corpus are written with random option lists (quoted, ignore_ops, numbervars, max_depth, '
+         'variable_names) both by write_term_to_chars/3 and by write_term/3 on a file stream and the texts must be identical; '
+         'valid, damaged, multi-clause and empty texts are read by read_term_from_chars/3 and by read_term/3 on a file with the '
+         'same options (variables, variable_names, singletons) and must give variant terms or errors of the same class.',
+    note='Only agreement is asserted. All variables are named through variable_names/1 because write_term_to_chars/3 deliberately '
+         'invents names for unnamed variables (documented design difference).'),
 }
 
 NOT_APPLICABLE_REASON_UNBUILT = ('check designed in DESIGN.md but not built/validated yet in this session; '
